@@ -4,4 +4,4 @@ From Coq Require Extraction ExtrOcamlBasic.
 From VBase Require Import MachInt.
 From VModel Require Import ReadAdapter.
 Extraction Language OCaml.
-Separate Extraction adapter_step slice_step a_init s_init aborts.
+Separate Extraction adapter_step slice_step cursor_step a_init s_init c_init aborts.
